@@ -60,6 +60,7 @@ class EffectDeriver:
         self.cls = self.df.cls
         self.touchers = self._stack_touchers()
         self.frame_pushers = {m.name for m in self._frame_pushers()}
+        self.frame_poppers = self._frame_poppers()
         self.effects: Dict[str, OpEffect] = {}
         self.notes: List[str] = []
         self._derive()
@@ -95,13 +96,33 @@ class EffectDeriver:
 
     def _frame_pushers(self) -> List[Func]:
         out = []
+        helpers = set()  # accounting helpers: append the frame they are handed
         for m in self.cls.methods.values():
             if m.name == "run":
                 continue
             for n in m.own_nodes():
                 if isinstance(n, ast.Call) and norm(n.func) == "self.call_stack.append":
                     out.append(m)
+                    if n.args and isinstance(n.args[0], ast.Name) and n.args[0].id in m.params():
+                        helpers.add(m.name)
                     break
+        # whoever builds a frame and hands it to such a helper pushes a frame
+        for m in self.cls.methods.values():
+            if m.name == "run" or m in out:
+                continue
+            if any(isinstance(n, ast.Call) and isinstance(n.func, ast.Attribute) and norm(n.func.value) == "self" and n.func.attr in helpers for n in m.own_nodes()):
+                out.append(m)
+        return out
+
+    def _frame_poppers(self) -> set:
+        """Helpers that take the running frame off the call stack (and account for it): calling one ends the
+        instruction's view of the operand stack just like self.call_stack.pop()."""
+        out = set()
+        for m in self.cls.methods.values():
+            if isinstance(m.node, ast.Lambda) or [p for p in m.params() if p != "self"]:
+                continue
+            if any(isinstance(n, ast.Call) and norm(n.func) == "self.call_stack.pop" for n in m.own_nodes()) and not any(isinstance(n, ast.Call) and norm(n.func) in ("self.stack.pop", "self.stack.append") for n in m.own_nodes()):
+                out.add(m.name)
         return out
 
     # --------------------------------------------------------------- derivation
@@ -287,6 +308,10 @@ class EffectDeriver:
                 raise AnalysisError(f"{fn} at line {e.lineno} is not modelled")
             if isinstance(e.func, ast.Attribute) and norm(e.func.value) == "self":
                 name = e.func.attr
+                if name in self.frame_poppers:
+                    for p in ps:
+                        p.terminal = True
+                    return ps
                 if name in self.frame_pushers:
                     for p in ps:
                         p.c += 1  # the callee's RETURN* pushes exactly one value for the caller
